@@ -15,10 +15,12 @@ Inductive spec :=
 | SRaise (e : Z)                   (* raises e *)
 | SList (p : Z) (cs : list spec)   (* returns [p, [call c for c in cs]]: all children in parallel *)
 | SSeq (cs : list spec)            (* returns seq([...]): one child after the other *)
-| SCatch (c : spec).               (* returns catch(call c, ValueError, recover) *)
+| SCatch (c : spec)                (* returns catch(call c, ValueError, recover) *)
+| SAll (cs : list spec).           (* returns catch_all([...]): all children in parallel, every one is awaited,
+                                      then the first error BY POSITION is re-raised *)
 
 Definition children (s : spec) : list spec :=
-  match s with SList _ cs | SSeq cs => cs | SCatch c => [c] | _ => [] end.
+  match s with SList _ cs | SSeq cs | SAll cs => cs | SCatch c => [c] | _ => [] end.
 
 (** * Reference semantics: admissible outcomes.  A list with several failing children may surface
     any of their errors (the first rejection observed depends on the schedule). *)
@@ -31,7 +33,10 @@ Inductive adm : spec -> outcome -> Prop :=
 | adm_seq_ko cs pre c post vs e :
     cs = pre ++ c :: post -> Forall2 (fun c v => adm c (Ok v)) pre vs -> adm c (Ko e) -> adm (SSeq cs) (Ko e)
 | adm_catch_ok c v : adm c (Ok v) -> adm (SCatch c) (Ok v)
-| adm_catch_ko c e : adm c (Ko e) -> adm (SCatch c) (Ok (VRec e)).
+| adm_catch_ko c e : adm c (Ko e) -> adm (SCatch c) (Ok (VRec e))
+| adm_all_ok cs vs : Forall2 (fun c v => adm c (Ok v)) cs vs -> adm (SAll cs) (Ok (VList vs))
+| adm_all_ko cs pre c post vs e :
+    cs = pre ++ c :: post -> Forall2 (fun c v => adm c (Ok v)) pre vs -> adm c (Ko e) -> adm (SAll cs) (Ko e).
 
 (** * The machine *)
 Inductive phase := PIdle | PRun | PEval | PDone (o : outcome).
@@ -44,6 +49,8 @@ Definition idle (s : spec) : node := Node s PIdle [].
 
 Definition kid_ko (n : node) : option Z := match nphase n with PDone (Ko e) => Some e | _ => None end.
 Definition kid_ok (n : node) : option val := match nphase n with PDone (Ok v) => Some v | _ => None end.
+
+Definition kid_done (n : node) : bool := match nphase n with PDone _ => true | _ => false end.
 
 Fixpoint first_ko (kids : list node) : option Z :=
   match kids with
@@ -82,6 +89,17 @@ Definition recombine (n : node) : node :=
                     | None => n
                     end
           end
+      | SAll _ =>
+          (* catch_all waits for every term, then looks for errors in position order *)
+          if forallb kid_done kids then
+            match first_ko kids with
+            | Some e => Node sp (PDone (Ko e)) kids
+            | None => match all_ok kids with
+                      | Some vs => Node sp (PDone (Ok (VList vs))) kids
+                      | None => n
+                      end
+            end
+          else n
       | SCatch _ =>
           match kids with
           | [k] => match nphase k with
@@ -109,6 +127,7 @@ Definition do_finish (n : node) : node :=
       | SList _ cs => recombine (Node sp PEval (map idle cs))
       | SSeq cs => recombine (Node sp PEval [])
       | SCatch c => Node sp PEval [idle c]
+      | SAll cs => recombine (Node sp PEval (map idle cs))
       end
   | _ => n
   end.
@@ -142,7 +161,7 @@ Definition result (n : node) : option outcome := match nphase n with PDone o => 
 (** * Measures for termination: every call starts once and finishes once *)
 Fixpoint ssize (s : spec) : nat :=
   S (match s with
-     | SList _ cs | SSeq cs => fold_right (fun c a => ssize c + a) 0 cs
+     | SList _ cs | SSeq cs | SAll cs => fold_right (fun c a => ssize c + a) 0 cs
      | SCatch c => ssize c
      | _ => 0
      end).
@@ -153,7 +172,7 @@ Fixpoint fails (s : spec) : bool :=
   match s with
   | SLeaf _ => false
   | SRaise _ => true
-  | SList _ cs | SSeq cs => (fix ex (cs : list spec) : bool := match cs with [] => false | c :: r => fails c || ex r end) cs
+  | SList _ cs | SSeq cs | SAll cs => (fix ex (cs : list spec) : bool := match cs with [] => false | c :: r => fails c || ex r end) cs
   | SCatch _ => false
   end.
 
@@ -174,7 +193,7 @@ Fixpoint admb (s : spec) (o : outcome) {struct s} : bool :=
       | Ko e => (fix ex (cs : list spec) : bool := match cs with [] => false | c :: r => admb c (Ko e) || ex r end) cs
       | _ => false
       end
-  | SSeq cs =>
+  | SSeq cs | SAll cs =>
       match o with
       | Ok (VList vs) =>
           (fix go (cs : list spec) (vs : list val) : bool :=
